@@ -98,7 +98,7 @@ impl AstLowering {
     /// - Otherwise, if there is exactly one static `from_*` method with, use it when:
     ///     - exactly 1 parameter whose type matches the newtype underlying type (syntactic match), and
     ///     - return type `Result[T, E]`,
-    fn select_newtype_checked_ctor(n: &ast::NewtypeDecl) -> Option<String> {
+    fn select_newtype_checked_ctor(&self, n: &ast::NewtypeDecl) -> Option<String> {
         fn is_result_of_newtype(ty: &ast::Type, newtype_name: &str) -> bool {
             let ast::Type::Generic(name, args) = ty else {
                 return false;
@@ -109,12 +109,15 @@ impl AstLowering {
             matches!(&args[0].node, ast::Type::Simple(t) if t == newtype_name)
         }
 
-        fn matches_underlying_param(m: &ast::MethodDecl, underlying: &ast::Type) -> bool {
+        // Compare lowered types: `ast::Type` equality includes the spans of generic arguments (so `List[int]` never
+        // equals `List[int]` written elsewhere) and does not see through documented aliases (`i64`, `list[int]`).
+        let underlying_ty = self.lower_type(&n.underlying.node);
+        let matches_underlying_param = |m: &ast::MethodDecl| -> bool {
             if m.params.len() != 1 {
                 return false;
             }
-            m.params[0].node.ty.node == *underlying
-        }
+            self.lower_type(&m.params[0].node.ty.node) == underlying_ty
+        };
 
         // Candidate: static method named from_* with (underlying) -> Result[T, E]
         let mut candidates: Vec<&ast::MethodDecl> = n
@@ -128,7 +131,7 @@ impl AstLowering {
                 if !md.name.starts_with("from_") {
                     return None;
                 }
-                if !matches_underlying_param(md, &n.underlying.node) {
+                if !matches_underlying_param(md) {
                     return None;
                 }
                 if !is_result_of_newtype(&md.return_type.node, &n.name) {
@@ -225,7 +228,7 @@ impl AstLowering {
             }
             if let ast::Declaration::Newtype(ref n) = decl.node {
                 // Track validation hook selection for checked construction lowering.
-                if let Some(ctor) = Self::select_newtype_checked_ctor(n) {
+                if let Some(ctor) = self.select_newtype_checked_ctor(n) {
                     self.newtype_checked_ctor.insert(n.name.clone(), ctor);
                 }
             }
